@@ -32,6 +32,8 @@ pub enum Op {
     /// a request the docs refuse (count >= domain, or a domain that is not a power of two): documented panic
     BadInts { count: u16, domain: u32, nonce: u64 },
     Pow(u64),
+    /// the prover's grinding loop: first nonce 0, 1, 2, .. whose measure reaches the factor
+    Grind(u8),
 }
 
 #[derive(Serialize, Deserialize, Clone, Debug)]
@@ -48,6 +50,7 @@ pub enum Out {
     DrawFailed,
     Ints(Vec<u64>),
     Pow(u32),
+    Nonce(u64),
     DocPanic,
     None,
 }
@@ -130,6 +133,12 @@ fn apply_real<B: FA, H: HA<B>>(coin: &mut Coin<H>, op: &Op, digest: Option<H::Di
             let z = catch(|| coin.check_leading_zeros(*v)).map_err(|p| Fail::new(format!("pow/{}", pkey(&p)), format!("{name}: check_leading_zeros panicked: {}", p.msg)))?;
             Ok(Out::Pow(z))
         },
+        Op::Grind(f) => {
+            let n = catch(|| (0u64..1 << 20).find(|n| coin.check_leading_zeros(*n) >= *f as u32))
+                .map_err(|p| Fail::new(format!("pow/{}", pkey(&p)), format!("{name}: check_leading_zeros panicked: {}", p.msg)))?
+                .ok_or_else(|| Fail::new("harness/grind", "no nonce below 2^20"))?;
+            Ok(Out::Nonce(n))
+        },
     }
 }
 
@@ -151,6 +160,7 @@ fn apply_ref<B: FA>(coin: &mut RefCoin, op: &Op, digest: Option<&Dg>) -> Out {
         Op::Ints { count, log_domain, nonce } => Out::Ints(coin.draw_integers(*count as usize, 1u64 << *log_domain, *nonce)),
         Op::BadInts { .. } => Out::DocPanic,
         Op::Pow(v) => Out::Pow(coin.pow_measure(*v)),
+        Op::Grind(f) => Out::Nonce((0u64..1 << 20).find(|n| coin.pow_measure(*n) >= *f as u32).unwrap_or(u64::MAX)),
     }
 }
 
@@ -158,6 +168,7 @@ fn op_is_valid(op: &Op) -> bool {
     match op {
         Op::Ints { count, log_domain, .. } => (1..=32).contains(log_domain) && *count >= 1 && *count <= 255 && (*count as u64) < (1u64 << log_domain),
         Op::BadInts { count, domain, .. } => !domain.is_power_of_two() || *count as u32 >= *domain,
+        Op::Grind(f) => *f <= 10,
         _ => true,
     }
 }
@@ -240,6 +251,7 @@ fn op_strategy<B: FA>(small_counts: bool) -> BoxedStrategy<Op> {
         8 => ints,
         1 => bad,
         8 => prop_oneof![prop::sample::select(crate::c11::int_classes()), any::<u64>(), 0u64..64].prop_map(Op::Pow),
+        2 => (0u8..=if small_counts { 3 } else { 10 }).prop_map(Op::Grind),
     ]
     .boxed()
 }
@@ -256,7 +268,7 @@ impl<B: FA, H: HA<B> + Sync> SubCheck for History<B, H> {
         60
     }
     fn rule(&self) -> String {
-        "seed of 0..20 elements (C07's operand sources: boundary residues, non-canonical internal values, uniform) and 1..30 operations from {reseed(digest), draw base / quadratic / cubic, draw_integers(count 1..255 < domain 2^1..2^32, nonce from u64 classes), documented-panic requests (count >= domain, domain not a power of two), check_leading_zeros}; two real coins (given representation / canonical rebuild) and the reference coin step by step; then up to four minimally different histories (seed element +1, reseed digest one bit / one element +1, nonce +1, one extra base draw right before the observed draws) whose next four base draws must differ; non-trivial = at least one reseed and two different draw kinds; distinct by case".into()
+        "seed of 0..20 elements (C07's operand sources: boundary residues, non-canonical internal values, uniform) and 1..30 operations from {reseed(digest), draw base / quadratic / cubic, draw_integers(count 1..255 < domain 2^1..2^32, nonce from u64 classes), documented-panic requests (count >= domain, domain not a power of two), check_leading_zeros(v), the grinding loop (first nonce 0,1,2,.. whose measure reaches a factor 0..10; 0..3 for the Rescue coins)}; two real coins (given representation / canonical rebuild) and the reference coin step by step; then up to four minimally different histories (seed element +1, reseed digest one bit / one element +1, nonce +1, one extra base draw right before the observed draws) whose next four base draws must differ; non-trivial = at least one reseed and two different draw kinds; distinct by case".into()
     }
     fn required_labels(&self, _t: Tier) -> Vec<String> {
         vec!["variant=seed-element".into(), "variant=reseed-data".into(), "variant=nonce".into(), "variant=extra-draw".into(), "seed-len=0".into()]
@@ -311,7 +323,9 @@ impl<B: FA, H: HA<B> + Sync> SubCheck for History<B, H> {
                 Op::Ints { .. } => "draw_integers",
                 Op::BadInts { .. } => "draw_integers-doc-panic",
                 Op::Pow(_) => "pow",
+                Op::Grind(_) => "grind",
             };
+            obs.label(format!("op={what}"));
             ensure!(o1 == o2, format!("{what}/equal-histories-differ"), "{name}: step {i} ({op:?}): two coins with equal histories returned {o1:?} and {o2:?}");
             ensure!(o1 == or, format!("{what}/differs-from-reference"), "{name}: step {i} ({op:?}): coin returned {o1:?}, the documented construction gives {or:?}");
             if o1 == Out::DrawFailed {
@@ -420,18 +434,18 @@ pub fn run(run: &mut Run) {
             return;
         }
     }
-    run.sub(&h::<B62, Blake3_256<B62>>(false, 12_000, 300_000));
-    run.sub(&h::<B64, Blake3_256<B64>>(false, 12_000, 300_000));
-    run.sub(&h::<B128, Blake3_256<B128>>(false, 12_000, 300_000));
-    run.sub(&h::<B62, Blake3_192<B62>>(false, 12_000, 300_000));
-    run.sub(&h::<B64, Blake3_192<B64>>(false, 12_000, 300_000));
-    run.sub(&h::<B128, Blake3_192<B128>>(false, 12_000, 300_000));
-    run.sub(&h::<B62, Sha3_256<B62>>(false, 12_000, 300_000));
-    run.sub(&h::<B64, Sha3_256<B64>>(false, 12_000, 300_000));
-    run.sub(&h::<B128, Sha3_256<B128>>(false, 12_000, 300_000));
-    run.sub(&h::<B64, Rp64_256>(true, 2_500, 60_000));
-    run.sub(&h::<B64, RpJive64_256>(true, 2_500, 60_000));
-    run.sub(&h::<B62, Rp62_248>(true, 1_200, 30_000));
+    run.sub(&h::<B62, Blake3_256<B62>>(false, 30_000, 700_000));
+    run.sub(&h::<B64, Blake3_256<B64>>(false, 30_000, 700_000));
+    run.sub(&h::<B128, Blake3_256<B128>>(false, 30_000, 700_000));
+    run.sub(&h::<B62, Blake3_192<B62>>(false, 30_000, 700_000));
+    run.sub(&h::<B64, Blake3_192<B64>>(false, 30_000, 700_000));
+    run.sub(&h::<B128, Blake3_192<B128>>(false, 30_000, 700_000));
+    run.sub(&h::<B62, Sha3_256<B62>>(false, 30_000, 700_000));
+    run.sub(&h::<B64, Sha3_256<B64>>(false, 30_000, 700_000));
+    run.sub(&h::<B128, Sha3_256<B128>>(false, 30_000, 700_000));
+    run.sub(&h::<B64, Rp64_256>(true, 6_000, 120_000));
+    run.sub(&h::<B64, RpJive64_256>(true, 6_000, 120_000));
+    run.sub(&h::<B62, Rp62_248>(true, 2_500, 50_000));
 }
 
 #[allow(dead_code)]
